@@ -128,9 +128,19 @@ def b_list(ex, st, args, kwargs, node):
             return [(st.alloc(PyList(list(d.items.keys()))), st)]
         if isinstance(d, DictV):
             return [(("keys_snapshot", d), st)]       # immutable snapshot of the key set at this point
-    if isinstance(v, tuple) and v[0] in ("map", "zip", "listcomp"):
+    if isinstance(v, tuple) and v[0] in ("map", "zip", "listcomp", "keypred", "keys_snapshot"):
         return [(v, st)]
     raise Unsupported(f"list() of {type(v).__name__}")
+
+
+def b_sorted(ex, st, args, kwargs, node):
+    """sorted(<keys of a dict>): the same keys (order is not modelled)"""
+    v = st.deref(args[0]) if args else None
+    if isinstance(v, tuple) and v and v[0] in ("keys_snapshot", "keypred"):
+        return [(v, st)]
+    if isinstance(v, tuple) and v and v[0] == "keys" and isinstance(st.deref(v[1]), DictV):
+        return [(("keys_snapshot", st.deref(v[1])), st)]
+    raise Unsupported("sorted() of this value")
 
 
 def b_set(ex, st, args, kwargs, node):
@@ -236,7 +246,7 @@ def install(ex):
     ex.consts.update({
         "len": B(b_len), "float": B(b_float), "int": B(b_int), "abs": B(b_abs), "bool": B(b_bool),
         "min": B(b_minmax("min")), "max": B(b_minmax("max")), "range": B(b_range), "enumerate": B(b_enumerate),
-        "list": B(b_list), "set": B(b_set), "type": B(b_type), "isinstance": B(b_isinstance),
+        "list": B(b_list), "sorted": B(b_sorted), "set": B(b_set), "type": B(b_type), "isinstance": B(b_isinstance),
         "_is_boolean": B(b_is_boolean), "_is_integer": B(b_is_integer), "_is_floating": B(b_is_floating),
         "isinf": B(b_isinf), "isnan": B(b_isnan), "callable": B(b_callable), "id": B(b_id), "hex": B(b_hex),
         "print": B(b_print), "inf": POS_INF, "map": B(b_map), "all": B(b_all),
